@@ -226,7 +226,7 @@ def run(ctx):
     ctx.distinct_extra += total["grammar"]
     # (c) grammar-directed + edits, (d) numeric edges
     rng = ctx.sub_rng("gen")
-    nrand = 120000 if quick else 800000
+    nrand = 120000 if quick else 2500000
     rand = set()
     for _ in range(nrand):
         rand.add(mutate(gen_version(rng), rng))
@@ -249,7 +249,7 @@ def run(ctx):
     ctx.count("in_grammar_total", total["grammar"])
     ctx.count("accepted_total", total["accepted"])
     # check sub-command: every oracle-accepted generated string + a sample of the rest
-    sample = [s for s in rand if ref.parse(s, allow_v=True) is not None][: (3000 if quick else 40000)]
+    sample = [s for s in rand if ref.parse(s, allow_v=True) is not None][: (3000 if quick else 120000)]
     sample += rng.sample(rand, min(len(rand), 3000 if quick else 30000)) + edges
     sample += ["".join(t) for t in itertools.product(["1", "0", ".", "-", "a", "v", "+"], repeat=5)]
     # prefixes in front of valid versions: exactly one lower-case `v` is optional, nothing else is
@@ -262,7 +262,7 @@ def run(ctx):
         ctx.evaluations += r["n"]
         ctx.count("check_cli_runs", r["n"])
         total["bad"] += r["bad"]
-    bsample = rng.sample(sample, 400 if quick else 4000)
+    bsample = rng.sample(sample, 400 if quick else 12000)
     res4 = core.pmap(work_check_binary, [(ctx.bins, l) for l in core.split_even(bsample, 16)])
     for r in res4:
         ctx.evaluations += r["n"]
